@@ -152,6 +152,7 @@ func (m *rmMachine) step(x *hx, o op) {
 		if len(res) != want {
 			x.failOp("wrong-count", "RandomUniqueEntries(%d) returned %d entries, model size %d", n, len(res), len(m.model))
 		}
+		holdSlice(x, "RandomUniqueEntries", res, heldGarbage)
 	}
 	if !x.ok() {
 		return
@@ -159,10 +160,12 @@ func (m *rmMachine) step(x *hx, o op) {
 	if s := m.real.Size(); s != len(m.model) {
 		x.failOp("wrong-Size", "Size() = %d, model %d", s, len(m.model))
 	}
-	if ks := m.real.Keys(); !permOf(ks, mapKeys(m.model)) {
+	ks := m.real.Keys()
+	if !permOf(ks, mapKeys(m.model)) {
 		x.failOp("wrong-Keys", "Keys() = %v, model %v", ks, mapKeys(m.model))
 	}
-	if vs := m.real.Values(); !permOf(vs, mapVals(m.model)) {
+	vs := m.real.Values()
+	if !permOf(vs, mapVals(m.model)) {
 		x.failOp("wrong-Values", "Values() = %v, model %v", vs, mapVals(m.model))
 	}
 	fe := map[int]int{}
@@ -170,6 +173,10 @@ func (m *rmMachine) step(x *hx, o op) {
 	m.real.ForEach(func(k, v int) bool { fe[k] = v; n++; return true })
 	if n != len(m.model) || !eqMap(fe, m.model) {
 		x.failOp("wrong-ForEach", "ForEach visited %v (%d callbacks), model %v", fe, n, m.model)
+	}
+	if x.ok() { // returned aggregates are caller-owned (held.go)
+		holdSlice(x, "Keys", ks, heldGarbage)
+		holdSlice(x, "Values", vs, heldGarbage)
 	}
 	// a handful of random picks after every step: always members
 	for i := 0; i < 3 && len(m.model) > 0; i++ {
